@@ -113,7 +113,14 @@ def _gen_ops(rng, keys, n, tag):
         elif r < 0.94:
             ops.append(['keys'])
         elif r < 0.96:
-            ops.append(['eq', [[rng.choice(keys), 'x']]])
+            q = rng.random()
+            if q < 0.45:
+                ops.append(['eq', [[rng.choice(keys), 'x']]])
+            elif q < 0.8:
+                ops.append(['ne', [[rng.choice(keys), 'x']]])
+            else:
+                # an update whose input turns out to be malformed after some good pairs (the call raises)
+                ops.append(['update_bad', [[rng.choice(keys), '%s.b%d' % (v, j)] for j in range(rng.randint(0, 2))]])
         else:
             ops.append(['copy'])
     return ops
@@ -205,7 +212,7 @@ SWEEP_OPS = [
     ['set', 1, 'A'], ['set', 3, 'B'], ['get', 1], ['get', 3], ['getd', 3, 'dflt'], ['setdefault', 3, 'C'],
     ['del', 1], ['pop', 2], ['popitem'], ['clear'], ['update', [[3, 'D'], [1, 'E']], 'pairs'],
     ['ior', [[3, 'F']]], ['in', 1], ['len'], ['dict'], ['eq', [[1, 'p0'], [2, 'p1']]], ['copy'],
-    ['update', [[3, 'G']], 'both', [['kw', 'H']]],
+    ['update', [[3, 'G']], 'both', [['kw', 'H']]], ['ne', [[2, 'p1'], [3, 'B']]],
 ]
 _FIXED = {}
 
@@ -214,7 +221,7 @@ def _retag(op, tag):
     op = list(op)
     if op[0] in ('set', 'setdefault'):
         op[2] = tag + op[2]
-    elif op[0] in ('update', 'ior'):
+    elif op[0] in ('update', 'ior', 'update_bad'):
         op[1] = [[k, tag + v] for k, v in op[1]]
         if len(op) > 3:
             op[3] = [[k, tag + v] for k, v in op[3]]
@@ -252,7 +259,7 @@ class _Sweep:
 
 
 _PRE = [[1, 'p0'], [2, 'p1']]
-MUTATORS = ('set', 'get', 'getd', 'setdefault', 'del', 'pop', 'popitem', 'clear', 'update', 'ior', 'copy')
+MUTATORS = ('set', 'get', 'getd', 'setdefault', 'del', 'pop', 'popitem', 'clear', 'update', 'ior', 'copy', 'update_bad')
 
 
 def fixed_cases(tier):
